@@ -788,6 +788,31 @@ def _viol(ctx, stage, what, spec, key, **kw):
     ctx.violation("probe: " + stage, what, case, key=key)
 
 
+def _worst(dev, tol):
+    """(index, deviation, tolerance) of the entry with the largest deviation / tolerance ratio: the entry a message must show"""
+    dev = np.asarray(dev, dtype=float).reshape(-1)
+    tol = np.broadcast_to(np.asarray(tol, dtype=float), dev.shape).reshape(-1)
+    with np.errstate(all="ignore"):
+        r = np.where(tol > 0, dev / tol, np.where(dev > 0, np.inf, 0.0))
+    r = np.where(np.isnan(r), np.inf, r)
+    i = int(np.argmax(r))
+    return i, float(dev[i]), float(tol[i])
+
+
+def rep_noise(tb, val, lam_abs=None):
+    """Round-off floor of probes that hand gstools a data set CONSTRUCTED in the harness (mean of two prepared values +
+    trend, linear combinations, ...).  The values are doubles of magnitude |val_i| = |prepared_i + trend_i + mean_i|, so the
+    construction is rounded at eps*|val_i|; gstools subtracts trend and mean again, which turns this into an ABSOLUTE
+    perturbation eps*(|val_i| + |trend_i| + |mean_i|) of the prepared datum, independent of how small the prepared data
+    (the model variance) are.  Its effect on the estimate is bounded by sum_i |lambda_i| * that perturbation; factor 8 for
+    the handful of operations involved (x4 through a normalizer, whose derivative is < 4 on the generated data)."""
+    n = tb["n"]
+    val = np.abs(np.asarray(val, dtype=float))[:n]
+    mag = val + np.abs(fval(tb["trend"], tb["X"], n)) + np.abs(fval(tb["mean"], tb["X"], n))
+    lam = np.abs(tb["lam"][:n]) if lam_abs is None else lam_abs
+    return (4.0 if tb["nz"] is not None else 1.0) * 8 * EPS * (mag @ lam)
+
+
 def impl_results(spec, **kw):
     kr = build_krige(spec, Capture("pinv"), **kw)
     f, v = call_krige(kr, spec)
@@ -811,11 +836,11 @@ def probe_textbook(ctx, spec, stats):
         _viol(ctx, "textbook", "result has wrong size", spec, "textbook:shape", shape=list(shape))
         return tb
     if not np.all(np.abs(fr - tb["raw"]) <= tf):
-        _viol(ctx, "textbook", "raw kriging estimate differs from the solution of the kriging system (max dev %.3g, tol %.3g, cond %.3g)"
-              % (np.abs(fr - tb["raw"]).max(), tf.max(), tb["cond"]), spec, "textbook:estimate", impl=fr, expected=tb["raw"], tol=tf)
+        _viol(ctx, "textbook", "raw kriging estimate differs from the solution of the kriging system (target %d: dev %.3g, tol %.3g; cond %.3g)"
+              % (_worst(np.abs(fr - tb["raw"]), tf) + (tb["cond"],)), spec, "textbook:estimate", impl=fr, expected=tb["raw"], tol=tf)
     if not np.all(np.abs(v - tb["var"]) <= tv):
-        _viol(ctx, "textbook", "kriging variance differs from sill - k^T lambda of the kriging system (max dev %.3g)"
-              % np.abs(v - tb["var"]).max(), spec, "textbook:variance", impl=v, expected=tb["var"], tol=tv)
+        _viol(ctx, "textbook", "kriging variance differs from sill - k^T lambda of the kriging system (target %d: dev %.3g, tol %.3g)"
+              % _worst(np.abs(v - tb["var"]), tv), spec, "textbook:variance", impl=v, expected=tb["var"], tol=tv)
     mean_t = fval(tb["mean"], tb["Y"], m)
     inr = in_range(tb["nz"], tb["raw"] + mean_t) & in_range(tb["nz"], fr + mean_t)
     tp = post_tol(tb["nz"], tb["raw"] + mean_t, tf) + 1e-9 * np.abs(tb["field"])
@@ -875,8 +900,9 @@ def probe_metamorphic(ctx, rng, spec, stats, tb):
         _, f2, v2, fr2 = impl_results(s2)
         ctx.count(None, hist=dict(probe="lon_wrap"))
         if not (np.all(np.abs(fr2.reshape(-1) - fr.reshape(-1)) <= 2 * tf) and np.all(np.abs(v2.reshape(-1) - var.reshape(-1)) <= 2 * tv)):
-            _viol(ctx, "lon_wrap", "result changes when all longitudes are given as lon + 360 (max dev %.3g, tol %.3g)" % (
-                np.abs(fr2.reshape(-1) - fr.reshape(-1)).max(), 2 * tf.max()), s2, "lon_wrap", a=fr, b=fr2)
+            _viol(ctx, "lon_wrap", "result changes when all longitudes are given as lon + 360 (estimate, target %d: dev %.3g, tol %.3g; "
+                  "variance, target %d: dev %.3g, tol %.3g)" % (_worst(np.abs(fr2.reshape(-1) - fr.reshape(-1)), 2 * tf)
+                                                              + _worst(np.abs(v2.reshape(-1) - var.reshape(-1)), 2 * tv)), s2, "lon_wrap", a=fr, b=fr2)
     nz = tb["nz"]
     mean_t = fval(tb["mean"], tb["Y"], m)
     # ---- permutation of the conditioning points
@@ -887,8 +913,9 @@ def probe_metamorphic(ctx, rng, spec, stats, tb):
     _, f2, v2, fr2 = impl_results(s2)
     ctx.count(None, hist=dict(probe="cond_perm"))
     if not (np.all(np.abs(fr2.reshape(-1) - fr.reshape(-1)) <= 2 * tf) and np.all(np.abs(v2.reshape(-1) - var.reshape(-1)) <= 2 * tv)):
-        _viol(ctx, "cond_perm", "result depends on the order of the conditioning points (max dev %.3g, tol %.3g)" % (
-            np.abs(fr2.reshape(-1) - fr.reshape(-1)).max(), 2 * tf.max()), s2, "cond_perm", perm=perm, a=fr, b=fr2)
+        _viol(ctx, "cond_perm", "result depends on the order of the conditioning points (estimate, target %d: dev %.3g, tol %.3g; "
+              "variance, target %d: dev %.3g, tol %.3g)" % (_worst(np.abs(fr2.reshape(-1) - fr.reshape(-1)), 2 * tf)
+                                                          + _worst(np.abs(v2.reshape(-1) - var.reshape(-1)), 2 * tv)), s2, "cond_perm", perm=perm, a=fr, b=fr2)
     # ---- NaN conditioning values are ignored
     # (not for ExtDrift: the external drift array is not filtered together with the values, gstools raises
     #  "wrong number of ext. drifts" -- an input-format limitation, no wrong estimate; see design/C05.md)
@@ -924,9 +951,11 @@ def probe_metamorphic(ctx, rng, spec, stats, tb):
         sc = (abs(a) * r[0][1] + abs(b) * r[1][1] + r[2][1]) @ (Ki @ kk)
         ctx.count(None, hist=dict(probe="linearity"))
         dev = np.abs(r[2][0] - (a * r[0][0] + b * r[1][0]))
-        if not np.all(dev <= 1e-9 * sc + 1e-300):
-            _viol(ctx, "linearity", "estimate is not linear in the prepared data (max dev %.3g)" % dev.max(), spec, "linearity",
-                  a=a, b=b, v2=v2_, dev=dev, scale=sc)
+        tl = 1e-9 * sc + rep_noise(tb, np.maximum(np.maximum(np.abs(v1), np.abs(v2_)), np.abs(v3)), (Ki @ kk)[:n]) + 1e-300
+        if not np.all(dev <= tl):
+            i_, d_, t_ = _worst(dev, tl)
+            _viol(ctx, "linearity", "estimate is not linear in the prepared data (target %d: dev %.3g, tol %.3g)" % (i_, d_, t_), spec,
+                  "linearity", a=a, b=b, v2=v2_, dev=dev, tol=tl)
     # ---- unbiased variants reproduce constants (through trend and normalizer) and their drifts
     lam1 = np.abs(tb["lam"][:n]).sum(axis=0)
     if v in ("Ordinary", "Universal", "ExtDrift"):
@@ -983,7 +1012,7 @@ def probe_exact_at_data(ctx, spec, stats, kr=None, label="exact_at_data", extra=
     dev = np.abs(f - val)
     if not np.all(dev <= tp):
         _viol(ctx, label, "kriged field at the conditioning points differs from the conditioning values "
-              "(max dev %.3g, tol %.3g, cond %.3g)" % (dev.max(), tp.max(), tb["cond"]), s2, "exact:value", impl=f, expected=val, tol=tp)
+              "(point %d: dev %.3g, tol %.3g; cond %.3g)" % (_worst(dev, tp) + (tb["cond"],)), s2, "exact:value", impl=f, expected=val, tol=tp)
     if not np.all(np.abs(v) <= tv):
         _viol(ctx, label, "kriging variance at the conditioning points is not zero (max %.3g, tol %.3g)" % (np.abs(v).max(), tv),
               s2, "exact:variance", impl=v)
@@ -1038,14 +1067,22 @@ def probe_duplicates(ctx, rng, spec, stats):
         return
     _, fm, vmr, frm = impl_results(s_mrg)
     tbm2 = textbook(s_mrg)
-    tf = 10 * tol_solve(tbm["cond"], tbm2["sfield"] + np.abs(tbm["lam"][a]) * (abs(pa) + abs(pb)))
-    tv = 10 * tol_solve(tbm["cond"], tbm2["serr"])
-    if not np.all(np.abs(frd.reshape(-1) - frm.reshape(-1)) <= tf):
-        _viol(ctx, "duplicates", "duplicated point does not act as one point carrying the mean (max dev %.3g, tol %.3g)" % (
-            np.abs(frd.reshape(-1) - frm.reshape(-1)).max(), tf.max()), s_dup, "dup:mean", dup=frd, merged=frm, tol=tf)
-    if not np.all(np.abs(vd.reshape(-1) - vmr.reshape(-1)) <= tv):
-        _viol(ctx, "duplicates", "variance with a duplicated point differs from the merged system (max dev %.3g)" % (
-            np.abs(vd.reshape(-1) - vmr.reshape(-1)).max()), s_dup, "dup:variance", dup=vd, merged=vmr)
+    # threshold = pseudo-inverse solve error of the (rank deficient) duplicated system, relative to the accumulated
+    # magnitudes |d|^T|lambda| of the merged system (10x: one extra, exactly dependent row)  +  the representation
+    # round-off of the constructed merged datum / duplicate value at the magnitude of the RAW values (rep_noise)
+    vmag = np.abs(val).copy()
+    vmag[a] = max(abs(val[a]), abs(other), abs(merged_val))
+    tf = 10 * tol_solve(tbm["cond"], tbm2["sfield"] + np.abs(tbm["lam"][a]) * (abs(pa) + abs(pb))) + rep_noise(tbm, vmag)
+    tv = 10 * tbm2["tv"]
+    df_, dv_ = np.abs(frd.reshape(-1) - frm.reshape(-1)), np.abs(vd.reshape(-1) - vmr.reshape(-1))
+    if not np.all(df_ <= tf):
+        i_, d_, t_ = _worst(df_, tf)
+        _viol(ctx, "duplicates", "duplicated point does not act as one point carrying the mean (target %d: dev %.3g, tol %.3g)" % (i_, d_, t_),
+              s_dup, "dup:mean", dup=frd, merged=frm, tol=tf)
+    if not np.all(dv_ <= tv):
+        i_, d_, t_ = _worst(dv_, tv)
+        _viol(ctx, "duplicates", "variance with a duplicated point differs from the merged system (target %d: dev %.3g, tol %.3g)" % (i_, d_, t_),
+              s_dup, "dup:variance", dup=vd, merged=vmr, tol=tv)
 
 
 def _new_values(rng, spec, X):
@@ -1170,8 +1207,8 @@ def probe_update_sequence(ctx, rng, spec, stats, zero_error=False):
     tv = tb["tv"]
     if not (np.all(np.abs(fr1 - tb["raw"]) <= tf) and np.all(np.abs(v1.reshape(-1) - tb["var"]) <= tv)):
         _viol(ctx, "update_sequence", "an updated Krige object differs from the directly solved kriging system of its final settings after: %s "
-              "(max estimate dev %.3g, max variance dev %.3g, cond %.3g)" % (hist, np.abs(fr1 - tb["raw"]).max(),
-                                                                             np.abs(v1.reshape(-1) - tb["var"]).max(), tb["cond"]),
+              "(estimate, target %d: dev %.3g, tol %.3g; variance, target %d: dev %.3g, tol %.3g; cond %.3g)" % (
+                  (hist,) + _worst(np.abs(fr1 - tb["raw"]), tf) + _worst(np.abs(v1.reshape(-1) - tb["var"]), tv) + (tb["cond"],)),
               case_spec, "update_sequence:textbook", updated=fr1, expected=tb["raw"])
     if zero_error:
         probe_exact_at_data(ctx, final, stats, kr=kr, label="exact_after_update", extra=dict(history=steps))
